@@ -10,7 +10,10 @@
   FROMARR1   From<[T; M]>: every normal path performs the bit-copy out, the destruction of the rest
              and the disarming of the array; header start = 0, size = join of {M, N} each <= N
   PS2        no armed local under an explicit destroy (unwinding path of From)
-Not decided: that the kept part is the *last* min(N, M) elements; order (inherits push_back, C01).
+  FROMARR2   From<[T; M]> geometry: copied block = [M - size, M) lands at slot 0, destroyed block = [0, M - size),
+             header size = copy count (equalities of linear forms)
+  OWN1/STORE1/FULL1 on push_back, NONE1 on pop_front/pop_back: what the conversions are built from
+Not decided: order inside the copied block beyond "one contiguous bit-copy" (inherits push_back, C01).
 """
 from .. import effects, mir, shapes, tables
 from ..report import short_loc
@@ -24,7 +27,11 @@ EXPLANATION = (
     "owning conversions are safe code over T (so the type system guarantees independence of source and result), that "
     "they obtain elements only through iter().cloned() resp. feed every item to push_back, that clone_from clears "
     "first, and that From<[T; M]> copies out, destroys the remainder and disarms the source on every path with a header "
-    "bounded by N. Does NOT decide which part of the array is kept nor element order (values; C01)."
+    "bounded by N; that the block it keeps is [M - size, M) — the last elements — written at slot 0, the block it destroys is "
+    "[0, M - size) and the header counts exactly the copied elements (linear-form equalities on the operands of the copy, "
+    "the destroyed range and the returned aggregate); and that push_back / pop_front / pop_back, from which the other "
+    "conversions are built, store every item resp. answer None only when empty. Does NOT decide element order produced by "
+    "the push_back loop (values; C01)."
 )
 
 # `new()` is a pure single-path function in the `unstable` arm and is then rendered by value
@@ -159,3 +166,127 @@ def fromarr1(ctx, prog, cfg):
     c03.owner1_from(ctx, prog, cfg, "FROMARR1")
     # header of the constructed buffers: start = 0, size = 0 resp. join of {M, N} each <= N
     c04.inv1(ctx, prog, cfg, only=CTORS)
+    fromarr2(ctx, prog, cfg, "FROMARR1")
+
+
+# ---------------------------------------------------------------------------------------------------------------
+# FROMARR2 — which part of the array From<[T; M]> keeps, as geometry
+#
+# The source array [0, M) is split into a destroyed block and a bit-copied block. "Keeps the last min(N, M) elements, in
+# order, each owned once" needs: the copied block ends at M; the destroyed block starts at 0 and ends where the copied
+# block starts; the copy lands at offset 0 of the new storage (start = 0 is FROMARR1's); the header counts exactly the
+# copied elements. All are equalities of linear forms over M, N and the (joined) length local, read from the operands of
+# the copy, the range handed to drop_in_place and the aggregate returned.
+FROM = "<CircularBuffer<N, T> as From<[T; M]>>::from"
+
+
+def _flin(f, e, sign=1, acc=None):
+    if acc is None:
+        acc = {}
+    e = mir.strip_casts(f.deep_simplify(e))
+    if isinstance(e, tuple) and e:
+        if e[0] == "int":
+            acc[1] = acc.get(1, 0) + sign * e[1]
+            return acc
+        if e[0] == "binop" and e[1] in ("Add", "Sub", "AddUnchecked", "SubUnchecked"):
+            _flin(f, e[2], sign, acc)
+            _flin(f, e[3], sign if e[1].startswith("Add") else -sign, acc)
+            return acc
+    acc[e] = acc.get(e, 0) + sign
+    return acc
+
+
+def _fk(a):
+    return tuple(sorted((repr(k), v) for k, v in a.items() if v != 0))
+
+
+def _fshow(f, a):
+    out = []
+    for k, v in sorted(a.items(), key=lambda kv: repr(kv[0])):
+        if v:
+            t = "" if k == 1 else (mir.fmt(k, f) if isinstance(k, tuple) else str(k))
+            out.append(("+" if v > 0 else "-") + (str(abs(v)) if (abs(v) != 1 or k == 1) else "") + t[:40])
+    return " ".join(out) or "0"
+
+
+def _ptr_offset(f, e):
+    """(root, linear offset) of a raw pointer built with `.add()` / `.offset()` from some base"""
+    acc = {}
+    e = mir.strip_casts(f.deep_simplify(e))
+    while isinstance(e, tuple) and e and e[0] in ("call", "pcall") and str(e[1]).split("::")[-1] in ("add", "offset") and len(e[2]) == 2 and str(e[1]).startswith("<*"):
+        _flin(f, e[2][1], 1, acc)
+        e = mir.strip_casts(f.deep_simplify(e[2][0]))
+    return e, acc
+
+
+def _from_array(e):
+    return any(s == ("param", 1) for s in mir.walk(e))
+
+
+def fromarr2(ctx, prog, cfg, rule="FROMARR2"):
+    f = ctx.need_fn(prog, FROM, rule)
+    if f is None:
+        return
+    M = {("cparam", "M"): 1}
+    copies = []
+    for b, t in f.calls(False):
+        if mir.callee_path(t) in ("core::ptr::copy_nonoverlapping", "core::ptr::copy"):
+            a = f.call_args(b)
+            copies.append((b, a[0], a[1], a[2]))
+    for b, i, st, is_term in f.positions(False):
+        if not is_term and st["k"] == "copy_nonoverlapping":
+            copies.append((b, f.operand_expr(st["src"], b, i), f.operand_expr(st["dst"], b, i), f.operand_expr(st["count"], b, i)))
+    drops = []
+    for b, t in f.calls(False):
+        if mir.callee_path(t) == "core::ptr::drop_in_place":
+            a = mir.strip_casts(f.deep_simplify(f.call_args(b)[0]))
+            rng = None
+            for s in mir.walk(a):
+                if isinstance(s, tuple) and s and s[0] == "agg" and str(s[1]).startswith("core::ops::range::"):
+                    rng = s
+            if rng is None:
+                drops.append((b, None, None))
+                continue
+            d = dict(rng[3])
+            kind = rng[2]
+            lo = _flin(f, d["start"]) if "start" in d else {}
+            hi = _flin(f, d["end"]) if "end" in d else dict(M)
+            if kind == "RangeInclusive" or kind == "RangeToInclusive":
+                hi = _flin(f, ("int", 1), 1, hi)
+            drops.append((b, lo, hi))
+    if not copies:
+        ctx.violate(rule, FROM, "bit-copy of the kept block", f.loc, "From<[T; M]> has no ptr::copy of the kept block: the geometry cannot be decided", cfg)
+        return
+    starts = []
+    for (b, src, dst, cnt) in copies:
+        sroot, O = _ptr_offset(f, src)
+        droot, DO = _ptr_offset(f, dst)
+        C = _flin(f, cnt)
+        if not _from_array(sroot):
+            continue  # not a copy out of the argument
+        starts.append(_fk(O))
+        end = dict(O)
+        for k, v in C.items():
+            end[k] = end.get(k, 0) + v
+        ctx.check(_fk(end) == _fk(M), rule, FROM, "copied block ends at M (the last elements are kept)", short_loc(f, b),
+                  "the block bit-copied out of the array is [%s, %s), which does not end at M: the buffer does not keep the *last* "
+                  "elements of the array" % (_fshow(f, O), _fshow(f, end)), "source offset + count = M", cfg)
+        ctx.check(_fk(DO) == (), rule, FROM, "copy lands at slot 0", short_loc(f, b),
+                  "the kept block is written at offset `%s` of the new storage while the header says start = 0" % _fshow(f, DO),
+                  "destination offset 0", cfg)
+        if len(copies) == 1:
+            for rb in f.return_blocks():
+                r = f.deep_simplify(f.return_expr(rb))
+                if isinstance(r, tuple) and r and r[0] == "agg":
+                    sz = dict(r[3]).get("size")
+                    ctx.check(sz is not None and _fk(_flin(f, sz)) == _fk(C), rule, FROM, "header counts exactly the copied elements", short_loc(f, rb),
+                              "size = `%s` but `%s` elements were copied in: uninitialised slots are counted, or owned elements are not" %
+                              (_fshow(f, _flin(f, sz)) if sz is not None else "?", _fshow(f, C)), "size = copy count", cfg)
+    for (b, lo, hi) in drops:
+        if lo is None:
+            ctx.ok(rule, FROM, "destroyed block", "drop_in_place target is not a range of the array (judged by FROMARR1)", cfg, nontrivial=False)
+            continue
+        ctx.check(_fk(lo) == () and _fk(hi) in starts, rule, FROM, "destroyed block = [0, start of the copied block)", short_loc(f, b),
+                  "the destroyed block is [%s, %s) but the copied block starts at %s: an element is both destroyed and owned by the "
+                  "buffer, or neither" % (_fshow(f, lo), _fshow(f, hi), sorted(starts)), "destroyed [0, M - size), copied [M - size, M)", cfg)
+    ctx.floor(rule, "copies out of the array", len(starts), 1, cfg)
